@@ -1530,6 +1530,17 @@ INF_FLOAT = float('inf')
 NEG_INF_FLOAT = float('-inf')
 
 
+def _builtin_repr(basetype, value):
+    """Returns the repr of the underlying built-in value of ``value``.
+
+    Instances of subclasses of a built-in type are printed as
+    Subclass(<literal of the built-in value>); the literal must not come
+    from a __repr__ (or __str__) the subclass may have overridden."""
+    if isinstance(value, basetype):
+        return basetype.__repr__(value)
+    return repr(value)
+
+
 @register_pretty(float)
 def pretty_float(value, ctx):
     constructor = type(value)
@@ -1544,7 +1555,7 @@ def pretty_float(value, ctx):
     elif math.isnan(value):
         return pretty_call_alt(ctx, constructor, args=('nan', ))
 
-    doc = annotate(Token.NUMBER_FLOAT, repr(value))
+    doc = annotate(Token.NUMBER_FLOAT, _builtin_repr(float, value))
     if constructor is float:
         return doc
 
@@ -1557,7 +1568,7 @@ def pretty_int(value, ctx):
     if ctx.depth_left == 0:
         return pretty_call_alt(ctx, constructor, args=(..., ))
 
-    doc = annotate(Token.NUMBER_INT, repr(value))
+    doc = annotate(Token.NUMBER_INT, _builtin_repr(int, value))
     if constructor is int:
         return doc
 
